@@ -8,7 +8,11 @@ TReset == /\ Ev.e = "Reset"
           /\ nreg' = [i \in Thr |-> 0] /\ ncb' = [i \in Thr |-> 0] /\ joined' = [i \in Thr |-> FALSE] /\ mainTid' = 0
 TSetup == Ev.e = "Setup" /\ mainTid' = Ev.main /\ UNCHANGED <<st, kind, tid, nreg, ncb, joined>>
 TLaunch == Ev.e = "Launch" /\ Launch(Ev.thr, Ev.kind)
-TLaunchRet == Ev.e = "LaunchRet" /\ Ev.rc = 0 /\ UNCHANGED tvars
+(* launch succeeds (a cpu that cannot be used is not an error: the library launches unpinned); the thread object *)
+(* reports the join strategy it was launched with: AWS_THREAD_JOINABLE = 2, AWS_THREAD_MANAGED = 4             *)
+TLaunchRet == /\ Ev.e = "LaunchRet" /\ Ev.rc = 0
+              /\ Ev.detach = (IF kind[Ev.thr] = "managed" THEN 4 ELSE 2)
+              /\ UNCHANGED tvars
 TFnRan == Ev.e = "FnRan" /\ FnRan(Ev.thr, Ev.on, Ev.argok)
 TAtExitReg == Ev.e = "AtExitReg" /\ AtExitReg(Ev.thr, Ev.idx, Ev.rc)
 TFnEnd == Ev.e = "FnEnd" /\ FnEnd(Ev.thr)
